@@ -256,7 +256,7 @@ theorem minted_is_that_record {tbl : List SealRec} (hu : NoncesUnique tbl) {r : 
     {v v' : UInt8} {tok aad : Bytes} {pt : Plain}
     (htok : b64Std tok = some (v :: (r.nonce ++ r.ct)))
     (hm : Minted tbl key v' aad tok pt) : r.aad = aad ∧ r.pt = pt ∧ v = v' := by
-  obtain ⟨r', hr', hk', ha', hp', htok', hn'⟩ := hm
+  obtain ⟨r', hr', hk', ha', hp', htok', hn', _⟩ := hm
   rw [htok] at htok'
   simp only [Option.some.injEq, List.cons.injEq] at htok'
   obtain ⟨hv, happ⟩ := htok'
